@@ -34,13 +34,14 @@ func (c07) Batches(tier string, seed uint64) []core.Batch {
 	b = append(b, spread("doc", 16, tierN(tier, 900, 6000))...)
 	b = append(b, spread("corrupt", 8, tierN(tier, 6000, 40000))...)
 	b = append(b, spread("raw", 8, tierN(tier, 6000, 50000))...)
+	b = append(b, spread("huge", tierN(tier, 1, 4), 1)...)
 	return b
 }
 
 func (c07) Mandatory(tier string) []string {
 	return []string{"doc:comment-between-continuations", "doc:crlf-blank-separator", "doc:empty-first-line", "doc:no-final-newline-after-continuation", "doc:dot-line",
 		"doc:tab-marker", "doc:line>=4096-bytes", "doc:free-standing-comment-block", "doc:blank-run>=2", "doc:leading-blank-lines", "doc:zero-paragraphs", "doc:mixed-line-endings", "doc:indented-continuation",
-		"path:Next", "path:All", "path:Unmarshal-slice", "path:Decoder.Decode", "reader:string", "reader:onebyte", "reader:half", "reader:chunks", "reader:data+EOF",
+		"path:Next", "path:All", "path:Unmarshal-slice", "path:Decoder.Decode", "path:Unmarshal-typed-slice", "path:Decoder.Decode-typed", "doc:stream>=36MiB", "reader:string", "reader:onebyte", "reader:half", "reader:chunks", "reader:data+EOF",
 		"inv:paragraph-returned", "inv:error-returned"}
 }
 
@@ -83,6 +84,38 @@ func mkReader(kind, text string, seed uint64) io.Reader {
 
 type pWrap struct{ control.Paragraph }
 
+// c07Typed: the raw paragraph next to a few typed fields, as the library's own document types have it.
+type c07Typed struct {
+	control.Paragraph
+	Package string
+	Source  string
+	Tag     string
+	Section string `control:"Section"`
+	Bugs    string
+}
+
+// typedAgrees: a typed field holds the paragraph's value of exactly that name, or nothing.
+func typedAgrees(i int, t c07Typed) error {
+	for name, got := range map[string]string{"Package": t.Package, "Source": t.Source, "Tag": t.Tag, "Section": t.Section, "Bugs": t.Bugs} {
+		want, present := t.Paragraph.Values[name]
+		if !present {
+			// another spelling of the name (Policy: field names are not case-sensitive): a decoder may or may not honour it
+			for k, v := range t.Paragraph.Values {
+				if strings.EqualFold(k, name) && (got == "" || strings.TrimSpace(got) == strings.TrimSpace(v)) {
+					got, want, present = v, v, true
+				}
+			}
+		}
+		if !present && got != "" {
+			return fmt.Errorf("paragraph %d has no field %q, yet the struct field holds %q (a value from another paragraph?)", i, name, got)
+		}
+		if present && strings.TrimSpace(got) != strings.TrimSpace(want) {
+			return fmt.Errorf("paragraph %d: struct field %s = %q, the paragraph's value is %q", i, name, got, want)
+		}
+	}
+	return nil
+}
+
 // readAll reads text through one access path.
 func c07Read(path, rkind, text string, seed uint64) ([]control.Paragraph, error) {
 	rd := mkReader(rkind, text, seed)
@@ -120,6 +153,40 @@ func c07Read(path, rkind, text string, seed uint64) ([]control.Paragraph, error)
 			out[i] = ps[i].Paragraph
 		}
 		return out, nil
+	case "Unmarshal-typed-slice":
+		var ps []c07Typed
+		if err := control.Unmarshal(&ps, rd); err != nil {
+			return nil, err
+		}
+		out := make([]control.Paragraph, len(ps))
+		for i := range ps {
+			out[i] = ps[i].Paragraph
+			if err := typedAgrees(i, ps[i]); err != nil {
+				return out, typedMismatch{err}
+			}
+		}
+		return out, nil
+	case "Decoder.Decode-typed":
+		dec, err := control.NewDecoder(rd, nil)
+		if err != nil {
+			return nil, err
+		}
+		var out []control.Paragraph
+		for i := 0; i < 1+len(text); i++ {
+			var p c07Typed
+			err := dec.Decode(&p)
+			if err == io.EOF {
+				return out, nil
+			}
+			if err != nil {
+				return out, err
+			}
+			out = append(out, p.Paragraph)
+			if err := typedAgrees(i, p); err != nil {
+				return out, typedMismatch{err}
+			}
+		}
+		return out, fmt.Errorf("Decode returned more paragraphs than the input has bytes")
 	default: // Decoder.Decode
 		dec, err := control.NewDecoder(rd, nil)
 		if err != nil {
@@ -141,7 +208,10 @@ func c07Read(path, rkind, text string, seed uint64) ([]control.Paragraph, error)
 	}
 }
 
-var c07Paths = []string{"Next", "All", "Unmarshal-slice", "Decoder.Decode"}
+var c07Paths = []string{"Next", "All", "Unmarshal-slice", "Decoder.Decode", "Unmarshal-typed-slice", "Decoder.Decode-typed"}
+
+// typedMismatch marks a disagreement between typed fields and the embedded paragraph (always a finding).
+type typedMismatch struct{ error }
 
 func eqLines(a, b []string) bool {
 	if len(a) != len(b) {
@@ -324,6 +394,76 @@ func (p c07) invCase(c *core.C, text string) {
 	}
 }
 
+// hugeReader streams n paragraphs of about 1 KiB each without holding them.
+type hugeReader struct {
+	n, i int
+	buf  []byte
+}
+
+func hugePara(i int) string {
+	return fmt.Sprintf("Package: p%d\nVersion: 1.%d-1\nSection: s%d\nDescription: paragraph %d\n %s\n .\n %s\n\n", i, i, i%7, i, strings.Repeat("x", 440), strings.Repeat("y", 440))
+}
+
+func (h *hugeReader) Read(p []byte) (int, error) {
+	for len(h.buf) == 0 {
+		if h.i >= h.n {
+			return 0, io.EOF
+		}
+		h.buf = []byte(hugePara(h.i))
+		h.i++
+	}
+	n := copy(p, h.buf)
+	h.buf = h.buf[n:]
+	return n, nil
+}
+
+func (p c07) hugeCase(c *core.C, mib int, via string) {
+	n := mib << 20 / len(hugePara(100000))
+	src := &hugeReader{n: n}
+	count := 0
+	check := func(pa control.Paragraph) bool {
+		if pa.Values["Package"] != fmt.Sprintf("p%d", count) || len(pa.Order) != 4 || !strings.HasSuffix(strings.TrimRight(pa.Values["Description"], "\n"), strings.Repeat("y", 440)) {
+			c.Failf("paragraph %d of a %d MiB stream (%d paragraphs) via %s came back as Package=%q, fields %q, description of %d bytes", count, mib, n, via, pa.Values["Package"], pa.Order, len(pa.Values["Description"]))
+			return false
+		}
+		count++
+		return true
+	}
+	var err error
+	if via == "Next" {
+		var pr *control.ParagraphReader
+		if pr, err = control.NewParagraphReader(src, nil); err == nil {
+			for {
+				var pa *control.Paragraph
+				if pa, err = pr.Next(); err != nil || !check(*pa) {
+					break
+				}
+			}
+		}
+	} else {
+		var dec *control.Decoder
+		if dec, err = control.NewDecoder(src, nil); err == nil {
+			for {
+				var tp c07Typed
+				if err = dec.Decode(&tp); err != nil || !check(tp.Paragraph) {
+					break
+				}
+				if tp.Package != fmt.Sprintf("p%d", count-1) {
+					c.Failf("typed Package of paragraph %d is %q", count-1, tp.Package)
+					break
+				}
+			}
+		}
+	}
+	if err != nil && err != io.EOF {
+		c.Failf("reading a well-formed %d MiB stream via %s failed after %d paragraphs: %v", mib, via, count, err)
+	} else if err == io.EOF && count != n {
+		c.Failf("a well-formed stream of %d paragraphs (%d MiB) via %s ended after %d paragraphs without an error", n, mib, via, count)
+	}
+	c.Cover(fmt.Sprintf("doc:stream>=%dMiB", mib))
+	c.Nontrivial()
+}
+
 var c07Pinned = []string{
 	" orphan continuation\nFoo: bar\n", "Foo: a\nFoo: b\n", "Foo: a\n\n cont\nBar: x\n", "\tx\n", "Foo: a\nBar: b\nFoo: c\n\nFoo: d\n",
 	"Foo: a\n .\n", ":\n", ": x\n x\n", "Foo:\n\n", "#c\n x\nFoo: a\n", "Foo: a\n#c\n x\n", "no colon here\n", "Foo: a\r\n\r\n b\r\n",
@@ -390,6 +530,11 @@ func (p c07) RunBatch(t *core.T, b core.Batch) {
 			in, _ := json.Marshal(map[string]interface{}{"doc": d, "seed": seed})
 			t.Case("doc", in, func(c *core.C) { p.docCase(c, d, seed) })
 		}
+	case "huge":
+		// a package index of 36 MiB and more (real Packages files are of that order), streamed
+		mib := []int{36, 70, 140, 300}[b.Arg%4]
+		via := []string{"Next", "Decoder.Decode-typed"}[(b.Arg+int(t.Seed))%2]
+		t.Case("huge", []byte(fmt.Sprintf("%d/%s", mib, via)), func(c *core.C) { p.hugeCase(c, mib, via) })
 	case "corrupt":
 		for i := 0; i < b.N; i++ {
 			s := corrupt(r, gen.Deb822Doc(r).Render())
@@ -421,5 +566,15 @@ func (p c07) RunCase(t *core.T, kind string, input []byte) {
 		}
 	case "inv":
 		t.Case(kind, input, func(c *core.C) { p.invCase(c, string(input)) })
+	case "huge":
+		var mib int
+		var via string
+		if parts := strings.SplitN(string(input), "/", 2); len(parts) == 2 {
+			fmt.Sscanf(parts[0], "%d", &mib)
+			via = parts[1]
+			if mib > 0 && mib <= 1024 {
+				t.Case(kind, input, func(c *core.C) { p.hugeCase(c, mib, via) })
+			}
+		}
 	}
 }
